@@ -251,4 +251,16 @@ theorem fact_close_only_stops_the_poller :
     Facts.storeCloseBody = ["s.cancel()", "<-s.done", "return nil"] := by
   decide
 
+/-! ### T1: the functions the model transcribes, statement by statement (white space collapsed) -/
+
+def expected_Store_secretLocked : List String := ["if _, ok := s.active.m[name]; !ok { return nil }", "f, ok := s.active.f[name]", "if !ok { f = func() []byte { s.active.Lock() defer s.active.Unlock() s.countSecretFetch.Add(1) cs := s.active.m[name] cs.LastAccess = s.timeNow().Unix() return cs.Secret.Value } s.active.f[name] = f }", "return f"]
+
+/-- a handle: one closure per name, one critical section per read - count, look the entry up now, stamp the access time, return the current value's bytes -/
+theorem fact_Store_secretLocked_as_transcribed : Facts.body_Store_secretLocked = expected_Store_secretLocked := by rfl
+
+def expected_Store_Secret : List String := ["sec := s.secretOrNil(name)", "if sec == nil && !s.allowLookup { panic(fmt.Sprintf(\"secret %q not found in StoreConfig with lookup disabled\", name)) }", "return sec"]
+
+/-- Secret: nil for an unknown name becomes a panic only when lookups are disabled -/
+theorem fact_Store_Secret_as_transcribed : Facts.body_Store_Secret = expected_Store_Secret := by rfl
+
 end Setec.C12
